@@ -7,8 +7,8 @@
    Proofs/PlanProofs.v, Proofs/MachinePlan.v) satisfies it. *)
 From Coq Require Import List Arith Bool NArith.
 From FFSM2 Require Import Model.TaskList Model.BitArray Model.BitStream Model.Plan Model.Ancestors Model.Machine
-  Proofs.BitArrayProofs Proofs.MachineFrame Proofs.MachinePlan Proofs.MachineLife Proofs.GuardProofs Proofs.CycleProofs Proofs.PlanStep
-  Proofs.SerialProofs Proofs.LogProofs Proofs.MachineTop Model.Multi Generated.InitFacts Proofs.ConstructProofs Proofs.LifeMonitor Proofs.ActivationRounds Proofs.IndexSafety Proofs.FeatureProofs.
+  Proofs.BitArrayProofs Proofs.TaskListProofs Proofs.TaskListRun Proofs.PlanProofs Proofs.MachineFrame Proofs.MachinePlan Proofs.MachineLife Proofs.GuardProofs Proofs.CycleProofs Proofs.PlanStep
+  Proofs.SerialProofs Proofs.LogProofs Proofs.MachineTop Model.Multi Generated.InitFacts Proofs.ConstructProofs Proofs.LifeMonitor Proofs.ActivationRounds Proofs.IndexSafety Proofs.FeatureProofs Model.Script Proofs.Contract Proofs.Histories.
 Import ListNotations.
 
 (* update(): the oldest events of the call are exactly preUpdate(root), preUpdate(a), update(root), update(a),
@@ -30,7 +30,7 @@ Theorem C05_update_order :
            tr P (update P cfg orc s) = l_rest ++ l_phase ++ tr P s /\
            cbs P l_phase = expected_cbs cfg (update_phases a) /\
            Forall (phase_ev P cfg a MPreUpdate MUpdate MPostUpdate) l_phase /\
-           (forall (x y : list (event P)) (w : who) (r : recipient) (m : method) (v : view P),
+           (forall (x y : list (event P)) (w : who) (r : recipient) (m : method) (v : Machine.view P),
             x ++ EvCb P w r m v :: y = l_rest ++ l_phase ->
             is_transition_method m = true -> exists y' : list (event P), y = y' ++ l_phase) /\
            Forall (kview P (mk_ctl P KFull (t_empty P) (t_empty P))) l_phase.
@@ -53,7 +53,7 @@ Theorem C05_react_order :
            tr P (react P cfg orc s) = l_rest ++ l_phase ++ tr P s /\
            cbs P l_phase = expected_cbs cfg (react_phases a) /\
            Forall (phase_ev P cfg a MPreReact MReact MPostReact) l_phase /\
-           (forall (x y : list (event P)) (w : who) (r : recipient) (m : method) (v : view P),
+           (forall (x y : list (event P)) (w : who) (r : recipient) (m : method) (v : Machine.view P),
             x ++ EvCb P w r m v :: y = l_rest ++ l_phase ->
             is_transition_method m = true -> exists y' : list (event P), y = y' ++ l_phase) /\
            Forall (kview P (mk_ctl P KFull (t_empty P) (t_empty P))) l_phase.
@@ -107,6 +107,47 @@ Theorem C05_exactly_once_in_order :
          delivs P cfg a ds l -> cbs P l = expected_cbs cfg ds.
 Proof. exact (delivs_cbs). Qed.
 Print Assumptions C05_exactly_once_in_order.
+
+(* every update()/react() at any point of any in-contract history: the six phase deliveries to the root and to the
+   state active when the call began, in order, each recipient once; then the plan step; then request processing *)
+Theorem C05_every_cycle_of_every_history :
+  forall (P : Type) (cfg : config) (orc : oracle P),
+         wf_cfg cfg ->
+         wf_oracle P cfg orc ->
+         forall (lg : bool) (pre : list (api_op P)) (op : api_op P) (post : list (api_op P))
+           (mpre mmid mpost : method),
+         ops_ok P cfg orc (construct P cfg orc lg) (pre ++ op :: post) ->
+         is_cycle_op P op = Some (mpre, mmid, mpost) ->
+         let s := run P cfg orc lg pre in
+         let a := active P (co P s) in
+         let s' := run P cfg orc lg (pre ++ [op]) in
+         a < c_n cfg /\
+         Inv P cfg s' /\
+         active P (co P s') < c_n cfg /\
+         (exists l_proc l_plan l_phase : list (event P),
+            tr P s' = l_proc ++ l_plan ++ l_phase ++ tr P s /\
+            delivs P cfg a
+              [(Root, mpre); (St a, mpre); (Root, mmid); (St a, mmid); (St a, mpost); (Root, mpost)] l_phase /\
+            Forall (kview P (mk_ctl P KFull (t_empty P) (t_empty P))) l_phase /\
+            Forall (plan_ev P cfg a) l_plan /\
+            (c_plans cfg = false -> l_plan = []) /\ life_shape P cfg a (active P (co P s')) l_proc).
+Proof. exact (every_cycle_of_every_history). Qed.
+Print Assumptions C05_every_cycle_of_every_history.
+
+(* every query() of every history: query(root), query(active), core unchanged *)
+Theorem C05_every_query_of_every_history :
+  forall (P : Type) (cfg : config) (orc : oracle P),
+         wf_cfg cfg ->
+         wf_oracle P cfg orc ->
+         forall (lg : bool) (pre post : list (api_op P)),
+         ops_ok P cfg orc (construct P cfg orc lg) (pre ++ OQuery P :: post) ->
+         let s := run P cfg orc lg pre in
+         let a := active P (co P s) in
+         let s' := run P cfg orc lg (pre ++ [OQuery P]) in
+         co P s' = co P s /\
+         (exists l : list (event P), tr P s' = l ++ tr P s /\ delivs P cfg a [(Root, MQuery); (St a, MQuery)] l).
+Proof. exact (every_query_of_every_history). Qed.
+Print Assumptions C05_every_query_of_every_history.
 
 (* the abstract plan invariant the statements above quantify over is inhabited by the concrete one *)
 Theorem plan_invariant_exists :
